@@ -1067,7 +1067,16 @@ func (b *Bitmap) writeToUnoptimized(w io.Writer) (n int64, err error) {
 	// Remove empty containers before persisting.
 	//b.removeEmptyContainers()
 
-	containerCount := b.Containers.Size() - b.countEmptyContainers()
+	// Count the containers that will be written: Size() also counts keys
+	// whose container is nil, which the iterators (and so
+	// countEmptyContainers) never see.
+	containerCount := 0
+	cntIter, _ := b.Containers.Iterator(0)
+	for cntIter.Next() {
+		if _, c := cntIter.Value(); c.N() > 0 {
+			containerCount++
+		}
+	}
 	headerSize := headerBaseSize
 	byte2 := make([]byte, 2)
 	byte4 := make([]byte, 4)
